@@ -56,6 +56,7 @@ fn main() {
         "C07" => dgh::c07::run(&tier, seed),
         "C13" => dgh::c13::run(&tier, seed),
         "C08" => dgh::c08::run(&tier, seed),
+        "C16" => dgh::c16::run(&tier, seed),
         _ => {
           eprintln!("unknown property {}", prop);
           std::process::exit(2)
@@ -70,6 +71,11 @@ fn main() {
         Some(p) => std::fs::File::create(p).unwrap().write_all(text.as_bytes()).unwrap(),
         None => println!("{}", text),
       }
+    }
+    "c16-child" => {
+      let seed: u64 = args[2].parse().unwrap();
+      let idx: usize = args[3].parse().unwrap();
+      dgh::c16::child(seed, idx, args.get(4).map(|s| s.as_str()));
     }
     "translate" => {
       let mut repo = "/repo".to_string();
